@@ -17,25 +17,25 @@ PID = "C19"
 BIN = "demux"
 NSHARD = 6
 
-# deviations of the pinned code that the generator model follows (so that replay states stay aligned);
-# only EXT-level ones may be listed here once the C19-level ones are fixed in /repo
-GEN_DEVIATIONS = '{"ClearKeepsMid"}'
+# deviations of the code that the generator model follows (so that replay states stay aligned): none -
+# both deviations found on the pinned tree (KF-C19-1, KF-C19-2) are fixed in /repo
+GEN_DEVIATIONS = '{}'
 
 DEMUX_CFG = {
     "quick": [
         ("L3/len4", dict(Ls="{1, 2, 3}", Ssrcs="{1, 2}", Pts="{1, 2}", Mids="{1, 2}", Rids="{1}", Ext="ExtBoth", MaxLen=4)),
-        ("L2/len6", dict(Ls="{1, 2}", Ssrcs="{1, 2}", Pts="{1, 2}", Mids="{1, 2}", Rids="{1}", Ext="ExtBoth", MaxLen=6)),
+        ("L2/len6", dict(Ls="{1, 2}", Ssrcs="{1, 2}", Pts="{1, 2}", Mids="{1, 2}", Rids="{1}", Ext="ExtBoth", MaxLen=6, Probe=4)),
         ("L2/ext/len4", dict(Ls="{1, 2}", Ssrcs="{1}", Pts="{1, 2}", Mids="{1, 2}", Rids="{1}", Ext="ExtAll", MaxLen=4)),
     ],
     "thorough": [
         ("L3/len5", dict(Ls="{1, 2, 3}", Ssrcs="{1, 2}", Pts="{1, 2}", Mids="{1, 2}", Rids="{1}", Ext="ExtBoth", MaxLen=5)),
-        ("L2/full", dict(Ls="{1, 2}", Ssrcs="{1, 2}", Pts="{1, 2}", Mids="{1, 2}", Rids="{1}", Ext="ExtBoth", MaxLen=40)),
+        ("L2/full", dict(Ls="{1, 2}", Ssrcs="{1, 2}", Pts="{1, 2}", Mids="{1, 2}", Rids="{1}", Ext="ExtBoth", MaxLen=40, Probe=5)),
         ("L3/ext/len4", dict(Ls="{1, 2, 3}", Ssrcs="{1, 2}", Pts="{1, 2}", Mids="{1, 2}", Rids="{1, 2}", Ext="ExtAll", MaxLen=4)),
     ],
 }
 
 DEMUX_PROPS = ("AtMostOne ChainRespected AmbiguousPtDropped NeverToClosed ClosedRemoved NoCrossSection "
-               "BindingRule BindingLearnt")
+               "OnlyRegistered BindingRule BindingLearnt")
 
 
 def write_demux_cfg(path, c, emit, deviations=GEN_DEVIATIONS, props=DEMUX_PROPS):
@@ -49,6 +49,7 @@ CONSTANTS
   Rids = {c['Rids']}
   ExtCfgs <- {c['Ext']}
   MaxLen = {c['MaxLen']}
+  ProbeMaxLen = {c.get('Probe', c['MaxLen'] - 1)}
   Deviations = {deviations}
 VIEW view
 INVARIANTS TypeOK
